@@ -223,6 +223,13 @@ func famCfgTrunc(t *testing.T, seed int64, steps int) *Cluster {
 		c.Settle("client")
 		c.Drive(2*time.Second, nil, func() bool { return c.Leader() == A })
 	}
+	if c.Leader() == A && cmd == "addvoter" && seed%3 == 2 {
+		// the server that only the discarded configuration made a voter is asked to take over: nobody whose log
+		// does not hold that configuration may vote for it
+		c.Transfer(A, "n4")
+		c.Settle("client")
+		c.Drive(3*opt.Election, nil, nil)
+	}
 	if c.Leader() == A {
 		victim := map[bool]string{true: "n2", false: "n3"}[A != "n2" && seed%2 == 0]
 		if seed%3 != 0 {
